@@ -205,6 +205,12 @@ class Sandbox:
             self._stop_mocking(context)
             self._capture_exception(system_exit, sys.exc_info(),
                                     code, filename)
+        except BaseException:
+            # KeyboardInterrupt, GeneratorExit and other non-Exception classes
+            # are not ours to report, but the patches must not outlive the call
+            self._stop_mocking(context)
+            self._next_context_id += 1
+            raise
         else:
             self._stop_mocking(context)
 
